@@ -10,10 +10,10 @@ Theorems about the translation-table pipeline `Pyxv.Itext` (model of `Survey._se
 any element tree, any number of languages, any sparse pattern of translated slots.
 
 * `langs_nodup`, `ids_nodup`, `pad_uniform`, `default_unique` hold without any hypothesis.
-* `refs_exist` carries two guards: `wf` (a shape invariant of the builder's output: no empty dict in
+* `refs_exist` carries one guard: `wf` (a shape invariant of the builder's output: no empty dict in
   a translatable slot, bind-message keys unique — evaluated by the check on every generated input; proved
-  from the header layer in `Proofs/C07Rows.lean`) and `tagsPlain`, the exact complement of the open defect
-  F45 (osm tags with translated labels are referenced but never filed; `f45_witness`).
+  from the header layer in `Proofs/C07Rows.lean`).  The guards for the defects F6 and F45 are gone with their
+  repairs (`f6_repaired`, `f45_repaired`).
   The former guard `choicesLabeled` (defect F6) is gone: `_add_empty_translations` now pads the ids of
   every choice of an itext-requiring list (`f6_repaired` is the former witness, now satisfying the
   property).
@@ -184,14 +184,42 @@ theorem searchItemRefs_entry {x : Survey} (hw : wf x = true) {n r : Str}
   next l hfind => exact listIds_choiceRef hw (List.mem_of_find?_eq_some hfind) h
   next => cases h
 
-theorem tagRefs_nil {x : Survey} (ht : tagsPlain x = true) {f : Flat} (hf : f ∈ flats x) : tagRefs f = [] := by
-  simp only [tagsPlain, List.all_eq_true, Bool.not_eq_true'] at ht
-  unfold tagRefs
-  rw [List.flatMap_eq_nil_iff]
-  intro nl hnl
-  simp [ht f hf nl hnl]
+mutual
+theorem tag_mem_flatten (pre : Str) (hid : Bool) : ∀ (e : Elem), ∀ f ∈ flatten pre hid e, ∀ nl ∈ f.d.tags,
+    (⟨f.xpath ++ '/' :: nl.1, tagD nl, f.hidden⟩ : Flat) ∈ flatten pre hid e
+  | .node d kids, f, hf, nl, hnl => by
+    simp only [flatten, List.mem_cons, List.mem_append] at hf ⊢
+    rcases hf with rfl | hf | hf
+    · exact Or.inr (Or.inl (List.mem_map.mpr ⟨nl, hnl, rfl⟩))
+    · obtain ⟨nl', _, rfl⟩ := List.mem_map.mp hf
+      simp [tagD] at hnl
+    · exact Or.inr (Or.inr (tag_mem_flattenL _ _ kids f hf nl hnl))
+theorem tag_mem_flattenL (pre : Str) (hid : Bool) : ∀ (es : List Elem), ∀ f ∈ flattenL pre hid es, ∀ nl ∈ f.d.tags,
+    (⟨f.xpath ++ '/' :: nl.1, tagD nl, f.hidden⟩ : Flat) ∈ flattenL pre hid es
+  | [], f, hf, _, _ => by simp [flattenL] at hf
+  | e :: es, f, hf, nl, hnl => by
+    simp only [flattenL, List.mem_append] at hf ⊢
+    rcases hf with hf | hf
+    · exact Or.inl (tag_mem_flatten pre hid e f hf nl hnl)
+    · exact Or.inr (tag_mem_flattenL pre hid es f hf nl hnl)
+end
 
-theorem bodyRefs_entry {x : Survey} (hw : wf x = true) (ht : tagsPlain x = true) {f : Flat}
+/-- the label ref of an osm tag is filed by the tag's own visit in `_setup_translations` (eb9b6f4) -/
+theorem tagRefs_entry {x : Survey} (hw : wf x = true) {f : Flat} (hf : f ∈ flats x) {r : Str}
+    (h : r ∈ tagRefs f) : ∃ e ∈ ents x, e.path = r := by
+  unfold tagRefs at h
+  obtain ⟨nl, hnl, hin⟩ := List.mem_flatMap.mp h
+  split at hin
+  next hd =>
+    simp only [List.mem_singleton] at hin
+    have hf' : (⟨f.xpath ++ '/' :: nl.1, tagD nl, f.hidden⟩ : Flat) ∈ flats x :=
+      tag_mem_flattenL _ _ _ f hf nl hnl
+    apply label_or_hint_entry hw hf' (by simp [visited, tagD])
+    left
+    simp [labelRef, needsItextRef, tagD, hd, hin]
+  next => cases hin
+
+theorem bodyRefs_entry {x : Survey} (hw : wf x = true) {f : Flat}
     (hf : f ∈ flats x) {r : Str} (h : r ∈ bodyRefs x.lists f) :
     (∃ e ∈ ents x, e.path = r) ∨ ChoiceRef x r := by
   unfold bodyRefs at h
@@ -214,8 +242,9 @@ theorem bodyRefs_entry {x : Survey} (hw : wf x = true) (ht : tagsPlain x = true)
     next hcls =>
       have hv : visited f = true := by simp [visited, hcls]
       split at h
-      · rw [tagRefs_nil ht hf, List.append_nil] at h
-        exact Or.inl (label_or_hint_entry hw hf hv (labelAndHint_sub h))
+      · rcases List.mem_append.mp h with h | h
+        · exact Or.inl (label_or_hint_entry hw hf hv (labelAndHint_sub h))
+        · exact Or.inl (tagRefs_entry hw hf h)
       · cases h
     next hcls =>
       have hv : visited f = true := by simp [visited, hcls]
@@ -230,13 +259,13 @@ theorem bodyRefs_entry {x : Survey} (hw : wf x = true) (ht : tagsPlain x = true)
 
 /-- every reference was filed under some language by `_setup_translations` / `_setup_media`, or is a
 choice id that `_add_empty_translations` pads into every language -/
-theorem ref_entry {x : Survey} (hw : wf x = true) (ht : tagsPlain x = true) {r : Str}
+theorem ref_entry {x : Survey} (hw : wf x = true) {r : Str}
     (h : r ∈ refs x) : (∃ e ∈ ents x, e.path = r) ∨ ChoiceRef x r := by
   unfold refs out at h
   simp only [List.mem_append] at h
   rcases h with (h | h) | h
   · obtain ⟨f, hf, hr⟩ := List.mem_flatMap.mp h
-    exact bodyRefs_entry hw ht hf hr
+    exact bodyRefs_entry hw hf hr
   · obtain ⟨f, hf, hr⟩ := List.mem_flatMap.mp h
     obtain ⟨hv, e, he, hp⟩ := bindRefs_entry x.defaultLanguage (wf_elem hw hf) hr
     exact Or.inl ⟨e, mem_ents_of_elem hf hv (List.mem_append.mpr (Or.inl he)), hp⟩
@@ -257,13 +286,12 @@ theorem nonempty_of_ent {x : Survey} {e : Ent} (he : e ∈ ents x) :
 
 /-- **Every `jr:itext('id')` reference in the body or in bind messages, and every `itextId` of a choice
 item, names a text entry that exists in every translation** (and an itext block exists).
-Guards: `wf` (builder-output shape) and `tagsPlain` (complement of the open defect F45: osm tags with
-translated labels). -/
-theorem refs_exist (x : Survey) (hw : wf x = true) (ht : tagsPlain x = true) :
+Guard: `wf` (builder-output shape; derived from the header layer in `Proofs/C07Rows.lean`). -/
+theorem refs_exist (x : Survey) (hw : wf x = true) :
     ∀ r ∈ refs x, (out x).translations ≠ [] ∧ ∀ t ∈ (out x).translations, r ∈ t.ids := by
   intro r hr
   rw [out_translations]
-  rcases ref_entry hw ht hr with ⟨e, he, hp⟩ | ⟨hc, e, he⟩
+  rcases ref_entry hw hr with ⟨e, he, hp⟩ | ⟨hc, e, he⟩
   · have h1 : e.path ∈ pathsIn (setup (ents x)) e.lang := (mem_pathsIn_setup _ _ _).mpr ⟨e, he, rfl, rfl⟩
     obtain ⟨lps, hl, _, hk⟩ := mem_table_of_pathsIn h1
     refine ⟨nonempty_of_ent he, ?_⟩
@@ -290,9 +318,9 @@ theorem defaultOk_out (x : Survey) : defaultOk (obsOf x.defaultLanguage (out x))
 
 /-- The decidable predicate `Itext.holds` — the oracle evaluated by the check on the implementation's
 XForm — is true of the model's output for every survey satisfying the guard. -/
-theorem holds_out (x : Survey) (hw : wf x = true) (ht : tagsPlain x = true) :
+theorem holds_out (x : Survey) (hw : wf x = true) :
     holds (obsOf x.defaultLanguage (out x)) = true := by
-  have hre := refs_exist x hw ht
+  have hre := refs_exist x hw
   unfold holds
   simp only [Bool.and_eq_true]
   refine ⟨⟨⟨?_, ?_⟩, ?_⟩, ?_⟩
@@ -398,7 +426,7 @@ def ex1 (secondLabel : Txt) : Survey :=
 4 translations; the hypothesis of `default_unique` holds for it as well -/
 example :
     let x := ex1 (tr [("en", "B")])
-    wf x = true ∧ tagsPlain x = true ∧ choicesLabeled x = true ∧ (refs x).length = 5 ∧ (out x).translations.length = 4 ∧
+    wf x = true ∧ choicesLabeled x = true ∧ (refs x).length = 5 ∧ (out x).translations.length = 4 ∧
       ((out x).translations.map (·.lang)).contains x.defaultLanguage = true ∧
       (match run x with | .ok _ => true | _ => false) = true ∧
       holds (obsOf x.defaultLanguage (out x)) = true := by decide +kernel
@@ -432,14 +460,13 @@ def exOsm (tagLabel : Txt) : Survey :=
       .node { q .osm "b" (tr [("en", "B")]) .none .none with
                 tags := [("name".toList, tagLabel), ("addr".toList, .str "Addr".toList)] } [] ] }
 
-/-- **F45 on the model**: an osm tag with a translated label is referenced (`/data/b/name:label`) but has
-no text entry — `tagsPlain` is the exact location of an open defect; with plain tag labels the property holds. -/
-theorem f45_witness :
-    (let x := exOsm (tr [("en", "Name"), ("fr", "Nom")])
-     wf x = true ∧ tagsPlain x = false ∧ (match run x with | .ok _ => true | _ => false) = true ∧
-      refsExist (obsOf x.defaultLanguage (out x)) = false) ∧
-    (let x := exOsm (.str "Name".toList)
-     wf x = true ∧ tagsPlain x = true ∧ holds (obsOf x.defaultLanguage (out x)) = true) := by decide +kernel
+/-- **F45 repaired**: an osm tag with a translated label (the former witness of the defect) now satisfies the
+property: `/data/b/name:label` is filed in `en` and `fr` by the tag's own visit and padded elsewhere. -/
+theorem f45_repaired :
+    let x := exOsm (tr [("en", "Name"), ("fr", "Nom")])
+    wf x = true ∧ (match run x with | .ok _ => true | _ => false) = true ∧
+      (refs x).contains "/data/b/name:label".toList = true ∧
+      holds (obsOf x.defaultLanguage (out x)) = true := by decide +kernel
 
 /-- the languages' id lists differ in order but not as sets (why `pad_uniform` is stated on membership) -/
 example :
